@@ -42,6 +42,8 @@ inductive VStep (C : Crypto) (L : Loc) : View → View → Prop where
       VStep C L v { v with keys := some k, evs := .keys L.pub pk cr sr ems tr k :: v.evs }
   | connect (v : View) (k : Keys) (tr : Bytes) (hk : v.keys = some k) :
       VStep C L v { v with conn := .connected, connKeys := some k, evs := .finished k tr :: v.evs }
+  | sent (v : View) (k : Keys) (tr : Bytes) (hk : v.keys = some k) :
+      VStep C L v { v with evs := .sentFinished k tr :: v.evs }
 
 /-- reflexive-transitive closure -/
 inductive VSteps (C : Crypto) (L : Loc) : View → View → Prop where
@@ -139,8 +141,9 @@ theorem handleFinishedServer_vstep (C : Crypto) (L : Loc) (e : Ep) (b raw : Byte
   · dsimp only
     split
     · rename_i k hk
-      have := VStep.connect (C := C) (L := L) (view e) k e.ctx.transcript (by simpa [view] using hk)
-      exact .one (by simpa [view, ok, connect] using this)
+      have h1 := VStep.sent (C := C) (L := L) (view e) k (e.ctx.transcript ++ raw) (by simpa [view] using hk)
+      have h2 := VStep.connect (C := C) (L := L) { view e with evs := .sentFinished k (e.ctx.transcript ++ raw) :: (view e).evs } k e.ctx.transcript (by simpa [view] using hk)
+      exact (VSteps.one h1).step (by simpa [view, ok, connect] using h2)
     · have := VStep.conn (C := C) (L := L) (view e) .failed (by decide)
       exact .one (by simpa [view] using this)
 
@@ -208,10 +211,12 @@ theorem handleServerHelloDone_vstep (C : Crypto) (L : Loc) (e : Ep) :
       · rename_i k hd
         obtain ⟨pk, cr, sr, h1, h2, h3, h4⟩ := deriveKeys_some hd
         simp only [emitMsg_peerPub, emitMsg_clientRandom, emitMsg_serverRandom, emitMsg_ems] at h1 h2 h3 h4
-        have := VStep.keys (C := C) (L := L) (view e) pk cr sr _ e.ctx.ems k
+        have s1 := VStep.keys (C := C) (L := L) (view e) pk cr sr _ e.ctx.ems k
           (by simpa [view] using hk) (by intro hc; simp [view] at hc ⊢; simpa [hc] using hver)
           (by simpa [view] using h1) (by simpa [view] using h2) h4
-        exact .one (by simpa [view, ok, h1, h2, h3] using this)
+        have s2 := VStep.sent (C := C) (L := L) _ k (emitMsg e.ctx dtlsHtClientKeyExchange L.ckeBody false).2.transcript
+          (show ({ view e with keys := some k, evs := .keys L.pub pk cr sr e.ctx.ems (emitMsg e.ctx dtlsHtClientKeyExchange L.ckeBody false).2.transcript k :: (view e).evs } : View).keys = some k from rfl)
+        exact (VSteps.one s1).step (by simpa [view, ok, h1, h2, h3] using s2)
 
 theorem handleMsg_vstep (C : Crypto) (L : Loc) (e : Ep) (t : Nat) (b raw : Bytes) :
     VSteps C L (view e) (view (handleMsg C L e t b raw).ep) := by
@@ -233,31 +238,36 @@ theorem handleMsg_vstep (C : Crypto) (L : Loc) (e : Ep) (t : Nat) (b raw : Bytes
   unfold clearPostHvr; split <;> rfl
 @[simp] theorem view_resync (e : Ep) (m : HsMsg) : view (resync e m) = view e := rfl
 
-theorem bufferFrag_fields (c : Ctx) (m : HsMsg) :
-    (bufferFrag c m).peerCert = c.peerCert ∧ (bufferFrag c m).skeVerified = c.skeVerified ∧
-    (bufferFrag c m).peerPub = c.peerPub ∧ (bufferFrag c m).clientRandom = c.clientRandom ∧
-    (bufferFrag c m).expectedFp = c.expectedFp := by
-  unfold bufferFrag; dsimp only; split <;> simp
+theorem resetFrag_fields (c : Ctx) (m : HsMsg) :
+    (resetFrag c m).peerCert = c.peerCert ∧ (resetFrag c m).skeVerified = c.skeVerified ∧
+    (resetFrag c m).peerPub = c.peerPub ∧ (resetFrag c m).clientRandom = c.clientRandom ∧
+    (resetFrag c m).expectedFp = c.expectedFp := by
+  unfold resetFrag; split <;> simp
 
 theorem acceptMsg_vstep (C : Crypto) (L : Loc) (e : Ep) (m : HsMsg) :
     VSteps C L (view e) (view (acceptMsg C L e m).ep) := by
   unfold acceptMsg
   dsimp only
-  have hb := bufferFrag_fields (clearPostHvr e).ctx m
+  have hb := resetFrag_fields (clearPostHvr e).ctx m
   split
   · split
     · refine VSteps.of_eq ?_
       rw [ok, view_withCtx_same _ _ (by simp) hb.1 hb.2.1 hb.2.2.1 hb.2.2.2.1 hb.2.2.2.2, view_clearPostHvr]
-    · have h := handleMsg_vstep C L (withCtx (clearPostHvr e)
-          (noteMsg (takeBuffer (bufferFrag (clearPostHvr e).ctx m)) m.typ
-            (encodeHs m.typ m.msgSeq 0 m.totalLen (bufferFrag (clearPostHvr e).ctx m).incomplete))) m.typ
-          (bufferFrag (clearPostHvr e).ctx m).incomplete
-          (encodeHs m.typ m.msgSeq 0 m.totalLen (bufferFrag (clearPostHvr e).ctx m).incomplete)
-      rw [view_withCtx_same _ _ (by simp) (by simpa [noteMsg, takeBuffer] using hb.1)
-        (by simpa [noteMsg, takeBuffer] using hb.2.1) (by simpa [noteMsg, takeBuffer] using hb.2.2.1)
-        (by simpa [noteMsg, takeBuffer] using hb.2.2.2.1) (by simpa [noteMsg, takeBuffer] using hb.2.2.2.2),
-        view_clearPostHvr] at h
-      exact h
+    · split
+      · refine VSteps.of_eq ?_
+        rw [ok, view_withCtx_same _ _ (by simp [appendFrag]) (by simpa [appendFrag] using hb.1)
+          (by simpa [appendFrag] using hb.2.1) (by simpa [appendFrag] using hb.2.2.1)
+          (by simpa [appendFrag] using hb.2.2.2.1) (by simpa [appendFrag] using hb.2.2.2.2), view_clearPostHvr]
+      · have h := handleMsg_vstep C L (withCtx (clearPostHvr e)
+            (noteMsg (takeBuffer (appendFrag (resetFrag (clearPostHvr e).ctx m) m)) m.typ
+              (encodeHs m.typ m.msgSeq 0 m.totalLen (appendFrag (resetFrag (clearPostHvr e).ctx m) m).incomplete))) m.typ
+            (appendFrag (resetFrag (clearPostHvr e).ctx m) m).incomplete
+            (encodeHs m.typ m.msgSeq 0 m.totalLen (appendFrag (resetFrag (clearPostHvr e).ctx m) m).incomplete)
+        rw [view_withCtx_same _ _ (by simp [noteMsg, takeBuffer, appendFrag]) (by simpa [noteMsg, takeBuffer, appendFrag] using hb.1)
+          (by simpa [noteMsg, takeBuffer, appendFrag] using hb.2.1) (by simpa [noteMsg, takeBuffer, appendFrag] using hb.2.2.1)
+          (by simpa [noteMsg, takeBuffer, appendFrag] using hb.2.2.2.1) (by simpa [noteMsg, takeBuffer, appendFrag] using hb.2.2.2.2),
+          view_clearPostHvr] at h
+        exact h
   · have h := handleMsg_vstep C L (withCtx (clearPostHvr e) (noteMsg (clearPostHvr e).ctx m.typ (rawOf m))) m.typ m.body (rawOf m)
     rw [view_withCtx_same _ _ (by simp) (by simp [noteMsg]) (by simp [noteMsg]) (by simp [noteMsg])
       (by simp [noteMsg]) (by simp [noteMsg]), view_clearPostHvr] at h
@@ -282,6 +292,7 @@ theorem procMsg_vstep (C : Crypto) (L : Loc) (e : Ep) (a : Bool) (m : HsMsg) :
     | exact hg
     | exact handleMsg_vstep ..
     | exact gate_vstep ..
+    | exact VSteps.of_eq rfl
 
 theorem procPayload_vstep (C : Crypto) (L : Loc) (a : Bool) : ∀ (fuel : Nat) (e : Ep) (bs : Bytes),
     VSteps C L (view e) (view (procPayload C L a fuel e bs).ep) := by
@@ -357,7 +368,7 @@ theorem onDatagram_deliver_mid (A : DecFn) (C : Crypto) (L : Loc) : ∀ (fuel : 
     split at h
     · simp [ok] at h
     · rename_i hne
-      simp only [hne, if_false]
+      simp only [hne]
       split at h
       · simp [ok] at h
       · simp [ok] at h
